@@ -9,7 +9,7 @@ LEVEL = 'proof'
 RULE = ('corpus; exhaustive scope: every 3-valued surface on the grids 1x1..2x3 (and 3x1, 3x2) x every marker '
         'placement with labels in {0,1,2} x {cross, box}, return_lines=True (thorough: all; quick: a seeded slice of '
         'whole surfaces); random 1-3 D surfaces in bool/8 integer/2 float dtypes x 7 layouts of surface and of markers, '
-        'markers none/one/touching/border/dense (also negative labels), neighbourhoods cross/box/5x5/5x5x5/random '
+        'markers none/one/touching/border/dense (also negative labels), neighbourhoods None/int/cross/box/5x5/5x5x5/random '
         'boolean/even-sized/wider than the image, plateaus and ties. Every real call is made twice with the heap '
         'pre-dirtied by two different byte patterns (numpy small-block cache and glibc M_PERTURB), so an output cell '
         'the kernel never writes differs from the specification. Non-trivial = at least one pixel is flooded from a '
@@ -124,6 +124,8 @@ def _eval_single(cases):
         S = np.array(c['data'], dtype=object if np.dtype(c['dtype']).kind != 'f' else None).astype(c['dtype']).reshape(shape)
         M = np.array(c['markers'], dtype=object).astype(c['mdtype']).reshape(shape)
         Bc = np.array(c['bc'], dtype=object).astype(c['bcdtype']).reshape(c['bshape'])
+        if c.get('bcarg') is not None:
+            Bc = None if c['bcarg'] == 'none' else int(c['bcarg'])
         mnorm = [int(x) for x in M.astype(np.int64).ravel().tolist()]
         arrs.append((S, M, Bc, mnorm))
         lines_.append(_line(shape, _ranks(c['data'], c['dtype']), mnorm, c['bshape'], c['bcnz']))
@@ -312,6 +314,16 @@ def _mk_case(rng):
     data = _rand_surface(rng, shape, dtype)
     markers = _rand_markers(rng, shape, mdtype)
     B, name = _rand_elem(rng, shape)
+    bcarg = None
+    if rng.random() < 0.12:
+        # Bc given as None / a connectivity or neighbour count: get_structuring_elem builds the l1-ball of that radius
+        nd = len(shape)
+        bcarg = rng.choice(['none', 1, 2] + ([4, 8] if nd == 2 else [6, 3] if nd == 3 else []))
+        r = {'none': 1, 4: 1, 8: 2, 6: 1}.get(bcarg, bcarg)
+        B = np.zeros((3,) * nd, bool)
+        for k in itertools.product(range(3), repeat=nd):
+            B[k] = sum(abs(x - 1) for x in k) <= r
+        name = 'default'
     # Bc as the caller passes it: bool, or numbers in some dtype (cast to the surface dtype by get_structuring_elem)
     bcdtype = rng.choice(['bool', 'bool', 'uint8', 'int32', dtype])
     bc = [int(x) for x in B.ravel().tolist()]
@@ -319,9 +331,13 @@ def _mk_case(rng):
         bc = [x * rng.choice([1, 2, 3]) for x in bc]
     with np.errstate(all='ignore'):
         nz = (np.array(bc, dtype=object).astype(bcdtype).astype(dtype) != 0)
-    return dict(shape=shape, dtype=dtype, data=data, markers=markers, mdtype=mdtype, bshape=list(B.shape), bc=bc,
-                bcnz=[int(x) for x in nz.tolist()], bcdtype=bcdtype, layout=rng.choice(gen.LAYOUTS),
-                mlayout=rng.choice(gen.LAYOUTS), lines=rng.random() < 0.7, elem=name)
+    c = dict(shape=shape, dtype=dtype, data=data, markers=markers, mdtype=mdtype, bshape=list(B.shape), bc=bc,
+             bcnz=[int(x) for x in nz.tolist()], bcdtype=bcdtype, layout=rng.choice(gen.LAYOUTS),
+             mlayout=rng.choice(gen.LAYOUTS), lines=rng.random() < 0.7, elem=name)
+    if bcarg is not None:
+        c.update(bcarg=bcarg, bcdtype='bool', bc=[int(x) for x in B.ravel().tolist()],
+                 bcnz=[int(x) for x in B.ravel().tolist()])
+    return c
 
 
 EXH_SHAPES = ([1, 1], [1, 2], [2, 1], [1, 3], [3, 1], [2, 2], [2, 3], [3, 2])
@@ -390,7 +406,7 @@ def shrink(case):
             d = list(case['data']); d[i] = 0
             yield dict(case, data=d)
     for i, v in enumerate(case['bc']):
-        if v != 0:
+        if v != 0 and case.get('bcarg') is None:
             b = list(case['bc']); b[i] = 0
             z = list(case['bcnz']); z[i] = 0
             yield dict(case, bc=b, bcnz=z)
